@@ -28,6 +28,18 @@ CHECKS = {
          "model consulted after every look-up; then the filters in force applied to generated content through six paths (host file + real grep, "
          "host command pipeline + real grep, archive post-filter, Cleaner allow-list, filter_content, apply_filters) with the line-level laws checked on each",
          "deterministic simulation: generated registration/look-up/definition histories against a reference registry model + real grep processes on a scratch tree; line-level filter laws"),
+ "C08": ("w3", "3.C08", "histories of specs through one stateful Cleaner under generated configurations; planted sensitive tokens (patterns, keywords, "
+         "password secrets, IPv4, host names, MACs) must not survive unless exempt or equal to a substitute the obfuscator had already issued at that "
+         "point of the history (read from its own mapping())",
+         "deterministic simulation: generated spec histories through one stateful cleaner x configuration x per-spec exemptions, each run replicated under a second hash seed; history-dependent non-leak oracle"),
+ "C09": ("w3", "3.C09", "differential oracle over whole histories: every input line rebuilt with the mapping the cleaner reports must equal the cleaner's "
+         "output across all specs; injectivity; no phantom originals; the facts file written by generate_rhsm_facts carries the same pairs; separate "
+         "collision regime plants originals equal to issued substitutes",
+         "deterministic simulation: recurrence-forcing histories through one stateful cleaner; differential oracle against the reported mapping + reference reconstruction"),
+ "C10": ("w3", "3.C10", "every case executed by two interpreters that differ only in PYTHONHASHSEED (the schedule this property quantifies over) and "
+         "compared; application order of the obfuscators observed per line and required to follow one total order; marker-based order / one-to-one / "
+         "empty-collapse checks",
+         "deterministic simulation: the process hash seed as the schedule (each case under >= 2 seeds, 16 seeds per batch), instrumented application order; cross-run equality"),
  "C12": ("w1r", "3.C12", "generated rule sets (shared modules/keys/types, every return kind and constructor-argument shape, payloads around "
          "the size limit) under the real SingleEvaluator / InsightsEvaluator / JsonFormat, serial, incremental and on SimPool with seeded "
          "interleavings traced through evaluators.py; counting oracle: each rule in exactly the predicted bucket, entry fields, totals",
@@ -47,6 +59,7 @@ NA = [
   ("C20", "query evaluation is a pure function of (tree, query, options) (DESIGN.md section 5)"),
 ]
 ENGINES = {
+ "w3": ("worlds/w3_cleaner.py", "W3: histories of typed-segment specs through one real Cleaner; hash seed owned by the runner"),
  "w4": ("worlds/w4_filters.py", "W4: filter registry histories on spec sets built through the real metaclass + content laws across the six filter application paths (real grep)"),
  "w5": ("worlds/w5_clientstate.py", "W5: client state directory histories on a scratch tree with seeded uuid/clock/RHSM peer and audit-hook I/O monitor + fault injector"),
  "w1s": ("worlds/w1_specs.py", "W1s: spec-set registration histories through the real SpecSetMeta, evaluated by the real engine"),
